@@ -200,6 +200,7 @@ Definition srv_step (strict scmpstrict keyok epochok : bool) (kreqs : list kreq)
                 (if strict && s_fetcher c then C13_srv_strict_ok (s_local_port c) epochok qr sobs_ else true) &&
                 forallb (srv_keyreq_ok qr) kreqs && (zlen kreqs <=? 1) &&
                 C13_srv_fwdext_ok (s_local_port c) qr sobs_ &&
+                C13_srv_maclen_ok (s_fetcher c) (s_local_port c) qr sobs_ &&
                 (if scmpstrict then C13_srv_scmpauth_ok (s_fetcher c) qr (pv_mac q) sobs_ else true) in
   (agree, oracle).
 
@@ -251,14 +252,14 @@ Fixpoint parse_resps (l : list value) : option (list (pview * Z)) :=
   | _ => None
   end.
 
-Definition cli_exchange (auth : bool) (lia : Z) (lh : bytes) (ria : Z) (rh : bytes) (v : value) : option (bool * bool) :=
+Definition cli_exchange (wanted auth : bool) (lia : Z) (lh : bytes) (ria : Z) (rh : bytes) (v : value) : option (bool * bool) :=
   match v with
   | VL [reqv; VL respsv; VL res] =>
       match parse_view reqv, parse_resps respsv with
       | Some req, Some resps =>
           let tbl := flat_map (fun r => mac_entry (fst r)) resps in
           let macf := fun (_ : bytes) mi => mac_lookup tbl mi in
-          let c := mkCcfg (if auth then Some zero_key else None) lia lh ria rh in
+          let c := mkCcfg (if auth then Some zero_key else None) lia lh ria rh wanted in
           let m := client_run macf c false 0 (map (fun r => (pv_rx (fst r), snd r)) resps) in
           let agree :=
             match m, res with
@@ -276,11 +277,11 @@ Definition cli_exchange (auth : bool) (lia : Z) (lh : bytes) (ria : Z) (rh : byt
   | _ => None
   end.
 
-Fixpoint cli_exchanges (auth : bool) (lia : Z) (lh : bytes) (ria : Z) (rh : bytes) (l : list value) : option (bool * bool) :=
+Fixpoint cli_exchanges (wanted auth : bool) (lia : Z) (lh : bytes) (ria : Z) (rh : bytes) (l : list value) : option (bool * bool) :=
   match l with
   | [] => Some (true, true)
   | v :: r =>
-      match cli_exchange auth lia lh ria rh v, cli_exchanges auth lia lh ria rh r with
+      match cli_exchange wanted auth lia lh ria rh v, cli_exchanges wanted auth lia lh ria rh r with
       | Some (a1, o1), Some (a, o) => Some (a1 && a, o1 && o)
       | _, _ => None
       end
@@ -289,7 +290,7 @@ Fixpoint cli_exchanges (auth : bool) (lia : Z) (lh : bytes) (ria : Z) (rh : byte
 Definition cli_case (a o : list value) : verdict :=
   match a, o with
   | VZ auth :: _, [VZ 0; VL [VZ lia; VB lh; VZ ria; VB rh]; VL exs] =>
-      match cli_exchanges (negb (auth =? 0)) lia lh ria rh exs with
+      match cli_exchanges (negb (auth =? 0)) (negb (auth =? 0)) lia lh ria rh exs with
       | Some (ag, orc) => relational ag orc
       | None => relational false true
       end
@@ -306,7 +307,7 @@ Fixpoint cli_keyed_exchanges (strict wanted : bool) (lia : Z) (lh : bytes) (l : 
   | [] => Some (true, true)
   | VL [reqv; VL respsv; VL res; VL [VZ ria; VB rh; VZ keyok; VZ epochok; VL rs]] :: r =>
       let keyok := negb (keyok =? 0) in
-      match cli_exchange (wanted && keyok) lia lh ria rh (VL [reqv; VL respsv; VL res]), parse_resps respsv, parse_kreqs rs,
+      match cli_exchange wanted (wanted && keyok) lia lh ria rh (VL [reqv; VL respsv; VL res]), parse_resps respsv, parse_kreqs rs,
             cli_keyed_exchanges strict wanted lia lh r with
       | Some (a1, o1), Some resps, Some kreqs, Some (a, o) =>
           let accepted := match res with VZ 0 :: VZ j :: VZ _ :: _ => Some (Z.to_nat j) | _ => None end in
@@ -317,7 +318,8 @@ Fixpoint cli_keyed_exchanges (strict wanted : bool) (lia : Z) (lh : bytes) (l : 
           (* the timestamps handed to the filter are those of accepted responses (this one's, or in
              interleaved mode the previously accepted one's receive timestamp): decided by the harness *)
           let tsok := match res with [VZ 0; VZ _; VZ _; VZ t] => negb (t =? 0) | [VZ 8] => false | _ => true end in
-          Some (a1 && fetch_agree && a, o1 && forallb (cli_keyreq_ok lia lh ria rh) kreqs && so && tsok && o)
+          let nk := C13_cli_nokey_ok wanted keyok (map (fun r => (pv_rx (fst r), pv_mac (fst r))) resps) accepted in
+          Some (a1 && fetch_agree && a, o1 && forallb (cli_keyreq_ok lia lh ria rh) kreqs && so && tsok && nk && o)
       | _, _, _, _ => None
       end
   | _ => None
@@ -455,14 +457,14 @@ Definition authopt_case (a o : list value) : verdict :=
 
 Open Scope string_scope.
 Definition glue_C13 (k : string) (a o : list value) : option verdict :=
-  if is k "srv" || is k "srv.probe" || is k "srv.keyed" || is k "srv.par" || is k "srv.dual" || is k "srv.fwdnots" || is k "srv.fwdhbh" || is k "srv.tailmac" then Some (srv_case false false a o)
+  if is k "srv" || is k "srv.probe" || is k "srv.keyed" || is k "srv.par" || is k "srv.dual" || is k "srv.fwdnots" || is k "srv.fwdhbh" || is k "srv.tailmac" || is k "srv.maclen" || is k "srv.nokey" || is k "srv.fwdbig" then Some (srv_case false false a o)
   else if is k "srv.strict" then Some (srv_case true false a o)
   else if is k "srv.scmpauth" then Some (srv_case false true a o)
   else if is k "svc.spao" then Some (svc_case a o)
   else if is k "drkey.cache" then Some (cache_case a o)
   else if is k "scion.consts" then Some (consts_case o)
   else if is k "scion.authopt" then Some (authopt_case a o)
-  else if is k "cli.keyed" then Some (cli_keyed_case false a o)
+  else if is k "cli.keyed" || is k "cli.nokey" then Some (cli_keyed_case false a o)
   else if is k "cli.strict" then Some (cli_keyed_case true a o)
   else if is k "cli" || is k "cli.probe" || is k "cli.tailmac" then Some (cli_case a o)
   else None.
